@@ -3945,7 +3945,7 @@ def thin(image, mask=None, iterations=1):
             break
     masked_image = extract_from_image_lookup(image, index_i, index_j)
     if not mask is None:
-        masked_image[~mask] = masked_image[~mask]
+        masked_image[~mask] = image[~mask]
     return masked_image
 
 
